@@ -43,7 +43,9 @@ def _resolve_enclosing_class(qualified_name: str) -> Optional[Type]:
     for number_of_module_parts in range(len(parts) - 1, 0, -1):
         try:
             found = importlib.import_module(".".join(parts[:number_of_module_parts]))
-        except (Exception, SystemExit):
+        except KeyboardInterrupt:
+            raise
+        except BaseException:
             # as for the module of the tag itself: whatever keeps it from being imported, also a script that exits
             continue
         for name in parts[number_of_module_parts:]:
@@ -115,7 +117,11 @@ class ClassNotDeserializableError(JSONSerializationError):
     clazz: Type
 
     def __post_init__(self):
-        name = getattr(self.clazz, "__name__", repr(self.clazz))
+        try:
+            name = getattr(self.clazz, "__name__", None) or repr(self.clazz)
+        except Exception:
+            # what the tag names need not be a class: an object may answer attribute access or repr() with anything
+            name = object.__repr__(self.clazz)
         super().__init__(f"Class '{name}' cannot be deserialized")
 
 
@@ -180,7 +186,11 @@ class JSONSerializableTypeRegistry(metaclass=SingletonMeta):
         :param type_class: The class to get the deserializer for
         :return: The deserializer function or None if not registered
         """
-        return self._deserializers.get(type_class)
+        try:
+            return self._deserializers.get(type_class)
+        except TypeError:
+            # a class that cannot be hashed (its metaclass defines __eq__) was never registered
+            return None
 
 
 class SubclassJSONSerializer:
@@ -244,7 +254,10 @@ class SubclassJSONSerializer:
 
         try:
             module = importlib.import_module(module_name)
-        except (Exception, SystemExit) as exc:
+        except KeyboardInterrupt:
+            raise
+        except BaseException as exc:
+            # (SystemExit of a script, the Skipped of a module that skips itself under pytest: not Exception sub-classes)
             # the name of a class that is defined inside another class continues with the enclosing classes
             module = _resolve_enclosing_class(module_name)
             if module is None:
@@ -254,8 +267,11 @@ class SubclassJSONSerializer:
 
         try:
             target_cls = getattr(module, class_name)
-        except Exception as exc:
-            # a module level __getattr__ (lazy imports) may fail with something else than AttributeError
+        except KeyboardInterrupt:
+            raise
+        except BaseException as exc:
+            # a module level __getattr__ (lazy imports) may fail with something else than AttributeError, also with
+            # what an import can end with
             raise ClassNotFoundError(class_name, module_name) from exc
 
         if not isinstance(target_cls, type) or inspect.isabstract(target_cls):
@@ -270,8 +286,10 @@ class SubclassJSONSerializer:
                 # the base class itself, or a subclass that does not say how it is created from json
                 raise ClassNotDeserializableError(target_cls)
             plain_function = inspect.getattr_static(target_cls, "_from_json", None)
+            if isinstance(plain_function, staticmethod):
+                plain_function = plain_function.__func__
             if inspect.isfunction(plain_function):
-                # neither a class method nor a static method: it is called on the class without an instance
+                # not a class method (a plain function, a static method): it is called with the document only
                 try:
                     inspect.signature(plain_function).bind(data, **kwargs)
                 except TypeError as exc:
